@@ -1,25 +1,31 @@
-"""Fork-based parallel map that keeps enumeration order deterministic.
+"""Fork-based parallel map that keeps enumeration order deterministic and survives crashing cases.
 
-Cases are enumerated in the parent (simplest first), split into contiguous chunks, evaluated in
-forked workers (the real pyiga is imported once in the parent), results are returned in case order.
+Cases are enumerated in the parent (simplest first), split into contiguous chunks which are dealt
+round-robin to forked workers (the real pyiga is imported once in the parent); results come back in
+case order.  If a worker dies from a signal (a case crashed the interpreter), the cases of the chunk it
+was working on are re-run one per forked child to find the culprit; the culprit's result is
+`Crash(signal)` if the caller passed allow_crash=True, otherwise that is a harness error.
 """
-import multiprocessing as mp
 import os
+import pickle
+import select
+import signal
+import struct
 import sys
 import traceback
 
-_FUNC = None
 
+class Crash:
+    """result placeholder for a case that killed its process"""
+    def __init__(self, sig):
+        self.sig = sig
 
-def _run_chunk(args):
-    idx, chunk = args
-    out = []
-    for c in chunk:
+    def __repr__(self):
         try:
-            out.append(_FUNC(c))
+            name = signal.Signals(self.sig).name
         except Exception:
-            out.append(("__harness_error__", traceback.format_exc(), repr(c)[:500]))
-    return idx, out
+            name = str(self.sig)
+        return "Crash(%s)" % name
 
 
 def workers_default():
@@ -30,29 +36,139 @@ def workers_default():
     return w if w > 0 else min(16, os.cpu_count() or 1)
 
 
-def pmap(func, cases, workers=None, chunk=None, min_parallel=48):
+def _eval(func, c):
+    try:
+        return func(c)
+    except Exception:
+        return ("__harness_error__", traceback.format_exc(), repr(c)[:500])
+
+
+def _send(fd, obj):
+    data = pickle.dumps(obj, protocol=4)
+    os.write(fd, struct.pack("<Q", len(data)))
+    off = 0
+    while off < len(data):
+        off += os.write(fd, data[off:off + (1 << 20)])
+
+
+class _Reader:
+    def __init__(self, fd):
+        self.fd = fd
+        self.buf = b""
+
+    def feed(self):
+        """read available bytes; returns list of complete messages, and eof flag"""
+        try:
+            chunk = os.read(self.fd, 1 << 20)
+        except OSError:
+            chunk = b""
+        eof = not chunk
+        self.buf += chunk
+        msgs = []
+        while len(self.buf) >= 8:
+            (n,) = struct.unpack("<Q", self.buf[:8])
+            if len(self.buf) < 8 + n:
+                break
+            msgs.append(pickle.loads(self.buf[8:8 + n]))
+            self.buf = self.buf[8 + n:]
+        return msgs, eof
+
+
+def _spawn(func, chunk_ids, chunks):
+    r, w = os.pipe()
+    sys.stdout.flush()
+    sys.stderr.flush()
+    pid = os.fork()
+    if pid == 0:
+        code = 0
+        try:
+            os.close(r)
+            for ci in chunk_ids:
+                _send(w, (ci, [_eval(func, c) for c in chunks[ci]]))
+            os.close(w)
+        except BaseException:
+            traceback.print_exc()
+            code = 3
+        finally:
+            sys.stdout.flush()
+            sys.stderr.flush()
+            os._exit(code)
+    os.close(w)
+    return pid, r
+
+
+def _run_single_isolated(func, case):
+    """evaluate one case in its own child; returns result or Crash"""
+    pid, r = _spawn(func, [0], [[case]])
+    rd = _Reader(r)
+    got = None
+    while True:
+        msgs, eof = rd.feed()
+        for ci, res in msgs:
+            got = res[0]
+        if eof:
+            break
+    os.close(r)
+    _, status = os.waitpid(pid, 0)
+    if got is not None:
+        return got
+    if os.WIFSIGNALED(status):
+        return Crash(os.WTERMSIG(status))
+    return Crash(-os.WEXITSTATUS(status) if os.WIFEXITED(status) else 0)
+
+
+def pmap(func, cases, workers=None, chunk=None, min_parallel=48, allow_crash=False):
     """Evaluate func on every case; returns the list of results in order.  A Python exception inside
     func is a *harness error* (drivers catch the exceptions that are part of the property themselves)."""
-    global _FUNC
     cases = list(cases)
     workers = workers or workers_default()
     if not cases:
         return []
     if workers <= 1 or len(cases) < min_parallel:
-        _FUNC = func
-        res = _run_chunk((0, cases))[1]
+        if allow_crash:
+            res = [_run_single_isolated(func, c) for c in cases]
+        else:
+            res = [_eval(func, c) for c in cases]
     else:
         if chunk is None:
             chunk = max(1, min(256, len(cases) // (workers * 8) or 1))
-        chunks = [(i, cases[k:k + chunk]) for i, k in enumerate(range(0, len(cases), chunk))]
-        _FUNC = func
-        ctx = mp.get_context("fork")
-        with ctx.Pool(workers) as pool:
-            parts = pool.map(_run_chunk, chunks, chunksize=1)
-        parts.sort(key=lambda t: t[0])
-        res = [r for _, rs in parts for r in rs]
-    for r in res:
+        chunks = [cases[k:k + chunk] for k in range(0, len(cases), chunk)]
+        workers = min(workers, len(chunks))
+        assign = [list(range(w, len(chunks), workers)) for w in range(workers)]
+        results = [None] * len(chunks)
+        live = {}
+        for w in range(workers):
+            pid, r = _spawn(func, assign[w], chunks)
+            live[r] = (pid, _Reader(r), list(assign[w]))
+        while live:
+            ready, _, _ = select.select(list(live), [], [])
+            for r in ready:
+                pid, rd, todo = live[r]
+                msgs, eof = rd.feed()
+                for ci, res in msgs:
+                    results[ci] = res
+                    todo.remove(ci)
+                if eof:
+                    os.close(r)
+                    _, status = os.waitpid(pid, 0)
+                    del live[r]
+                    if todo:
+                        # the worker died while working on chunk todo[0]
+                        bad = todo[0]
+                        sys.stderr.write("[par] worker %d died (status %d) in chunk %d; isolating its %d cases\n"
+                                         % (pid, status, bad, len(chunks[bad])))
+                        results[bad] = [_run_single_isolated(func, c) for c in chunks[bad]]
+                        rest = todo[1:]
+                        if rest:
+                            pid2, r2 = _spawn(func, rest, chunks)
+                            live[r2] = (pid2, _Reader(r2), list(rest))
+        res = [x for rs in results for x in rs]
+    for c, r in zip(cases, res):
         if isinstance(r, tuple) and len(r) == 3 and r[0] == "__harness_error__":
             sys.stderr.write("HARNESS ERROR in case %s\n%s\n" % (r[2], r[1]))
+            raise SystemExit(2)
+        if isinstance(r, Crash) and not allow_crash:
+            sys.stderr.write("HARNESS ERROR: case %s killed its process: %r (driver did not declare allow_crash)\n"
+                             % (repr(c)[:500], r))
             raise SystemExit(2)
     return res
